@@ -359,7 +359,7 @@ def elementwise(prog, ctx, E, wrappers):
             tl, tr = 0.01 * (x1 - x0), 0.01 * (xb - xa)
             for x in [x0 - 1, x0 - 3 * tl, x0 - 1.5 * tl, x0 - 0.5 * tl, x0, 0.5 * (x0 + xb), xb, xb + 0.5 * tr, xb + 1.5 * tr, xb + 3 * tr, xb + 1]:
                 rows.append({'x': x, 'this.domain[0]': x0, 'this.domain[1]': xb, 'this.x_values[0]': x0, 'this.x_values[1]': x1,
-                             'this.x_values[N - 2]': xa, 'this.x_values[N - 1]': xb, '_tl': tl, '_tr': tr})
+                             'this.x_values[N - 2]': xa, 'this.x_values[N - 1]': xb, 'this.N': 5, '_tl': tl, '_tr': tr})
 
         def spec(r):
             return r['x'] < r['this.domain[0]'] - 1.25 * r['_tl'] or r['x'] > r['this.domain[1]'] + 1.25 * r['_tr'] \
